@@ -90,6 +90,9 @@ EXTRA_AUDIT = ("HedVerif.Props.C16Closed", [
     "HedVerif.C16.excluded_files_silent_raw",
     "HedVerif.C16.file_judged_with_merged_sidecar_closed_raw",
     "HedVerif.C16.two_subject_example_closed_raw",
+    "HedVerif.C16.sidecarOracleFor_validate",
+    "HedVerif.C16.sidecarClosed_eq_closedD",
+    "HedVerif.C16.inherited_definition_example_closed_raw",
     "HedVerif.C16.readCell_spec",
     "HedVerif.C16.readTable_header",
 ])
